@@ -266,7 +266,7 @@ def check_C18(ctx):
     def mc_thread():
         try:
             for cfg in (QUICK_MC if quick else THOROUGH_MC):
-                tlc_mc(ctx, 'MC_Mem', cfg, timeout=280 if quick else 1500)
+                tlc_mc(ctx, 'MC_Mem', cfg, timeout=900 if quick else 1500)
             sens = []
             for cfg, what in SPEC_MUTANTS:
                 bad, st, out = tlc_mc(ctx, 'MC_Mem', cfg, timeout=200, expect_violation=True)
